@@ -1,9 +1,45 @@
 package desync
 
+
 // Engine self-tests (not tied to a property).
+
+import (
+	"io"
+	"os"
+	"path/filepath"
+)
 
 func VerifSelf_Trivial() {
 	k := vChoose("k", 400)
 	vCover("x")
 	vAssert(k >= 0, "nonneg")
+}
+
+func VerifSelf_FS() {
+	d := vTempDir()
+	name := d + "/f"
+	data := vBytes("data", 3)
+	err := os.WriteFile(name, data, 0644)
+	vAssert(err == nil, "write")
+	b, err := os.ReadFile(name)
+	vAssert(err == nil, "read")
+	vAssert(vEqBytes(b, data), "same data")
+	st, err := os.Stat(name)
+	vAssert(err == nil && st.Size() == 3, "stat size")
+	_, err = os.Stat(d + "/missing")
+	vAssert(os.IsNotExist(err), "enoent")
+	vAssert(os.Rename(name, d+"/g") == nil, "rename")
+	_, err = os.Stat(name)
+	vAssert(os.IsNotExist(err), "gone after rename")
+	var seen []string
+	filepath.Walk(d, func(p string, info os.FileInfo, err error) error {
+		seen = append(seen, p)
+		return nil
+	})
+	vAssert(len(seen) == 2, "walk sees dir and file")
+	f, _ := os.Open(d + "/g")
+	buf := make([]byte, 2)
+	n, err := f.ReadAt(buf, 2)
+	vAssert(n == 1 && err == io.EOF, "ReadAt short read gives EOF")
+	vCover("fs")
 }
